@@ -6,6 +6,8 @@ import (
 	"fmt"
 	"math/rand"
 	"net"
+	"os"
+	"strconv"
 	"strings"
 	"sync"
 	"sync/atomic"
@@ -607,6 +609,28 @@ func runC06(r *report.Run) {
 				}
 			}
 			if len(viol) > 0 {
+				// "never closed" is the one verdict taken at a wall-clock deadline (8 s after the history was
+				// completed). On a machine loaded far beyond its cores that alone must not decide: such a verdict is
+				// reported only when the same sequence shows it again in one of 5 further runs (a leak caused by the
+				// sequence does so every time; the sweep of reloads finishing at the timeout looks for the rare ones)
+				onlyDeadline := true
+				for _, v := range viol {
+					if !strings.Contains(v, "closed 0 times by the end of the history") {
+						onlyDeadline = false
+					}
+				}
+				if onlyDeadline {
+					again := false
+					for try := 0; try < 5 && !again; try++ {
+						if v2, _, _ := c06Run(seq, via); len(v2) > 0 {
+							again, viol = true, v2
+						}
+					}
+					if !again {
+						r.Count("never_closed_verdicts_at_the_deadline_not_reproduced_in_5_reruns", 1)
+						continue
+					}
+				}
 				r.Violation(c06Key(seq), fmt.Sprintf("sequence %v (via handler=%v): %s", seq, via, strings.Join(viol, "; ")), c06Case{Seq: append([]string{}, seq...), ViaHandler: via})
 			}
 		}
@@ -793,6 +817,26 @@ func replayC06(r *report.Run, raw json.RawMessage) {
 		for try := 0; try < 5 && len(viol) == 0; try++ { // schedule dependent: a few attempts
 			viol, _, _, _ = c06DeadlineSweep(n, seed)
 		}
+	} else if n, _ := strconv.Atoi(os.Getenv("VERIF_REPLAY_REPEAT")); n > 1 {
+		// schedule-dependent findings: repeat the sequence n times on 16 goroutines
+		var mu sync.Mutex
+		var wg sync.WaitGroup
+		for g := 0; g < 16; g++ {
+			wg.Add(1)
+			go func() {
+				defer wg.Done()
+				for i := 0; i < n/16+1; i++ {
+					v, _, _ := c06Run(c.Seq, c.ViaHandler)
+					if len(v) > 0 {
+						mu.Lock()
+						viol = append(viol, v...)
+						mu.Unlock()
+						return
+					}
+				}
+			}()
+		}
+		wg.Wait()
 	} else {
 		viol, _, _ = c06Run(c.Seq, c.ViaHandler)
 	}
